@@ -237,6 +237,29 @@ class Gen(object):
             b = rng.choice(pool)
         return query.TermRange(f, a, b, sx, ex, constantscore=rng.random() < 0.8)
 
+    def range_family(self):
+        """2-3 ranges on ONE field that touch / overlap at a pivot value which is itself a term of the vocabulary,
+        with every combination of inclusive / exclusive bounds at the pivot (merging decisions hinge on exactly
+        that point). Not for mode A1 (one range per field there)."""
+        from whoosh import query
+        rng = self.rng
+        f = rng.choice(["t", "t", "u", "k"])
+        self.range_fields.add(f)
+        pool = RANGE_POOL[f]
+        i = rng.randrange(len(pool))
+        p = pool[i]
+        lo = rng.choice(pool[:i] + [None]) if i else None
+        hi = rng.choice(pool[i + 1:] + [None]) if i + 1 < len(pool) else None
+        shapes = [lambda: query.TermRange(f, lo, p, rng.random() < 0.3, rng.random() < 0.6),
+                  lambda: query.TermRange(f, p, hi, rng.random() < 0.6, rng.random() < 0.3),
+                  lambda: query.TermRange(f, p, p, False, False),
+                  lambda: query.TermRange(f, lo, hi, rng.random() < 0.3, rng.random() < 0.3)]
+        out = [shapes[0](), shapes[1]()]
+        if rng.random() < 0.4:
+            out.append(rng.choice(shapes)())
+        rng.shuffle(out)
+        return out
+
     def leaf(self):
         from whoosh import query
         from vf import model
@@ -388,6 +411,9 @@ class Gen(object):
                 if rng.random() < 0.25:          # overlapping / duplicate ranges inside And
                     ch += [self.termrange() for _ in range(rng.randint(1, 2))]
                     rng.shuffle(ch)
+                if self.mode == "B" and rng.random() < 0.15:
+                    ch += self.range_family()
+                    rng.shuffle(ch)
                 q = query.And(ch, boost=rng.choice([1.0, 1.0, 2.0]))
         elif r < 0.48:
             ch = subs(lo, 4)
@@ -395,6 +421,9 @@ class Gen(object):
                 ch.append(query.Or(subs(1, 2), boost=rng.choice([1.0, 2.0, 0.5])))
             if rng.random() < 0.3:
                 ch += [self.termrange() for _ in range(rng.randint(1, 3))]
+                rng.shuffle(ch)
+            if self.mode != "A1" and rng.random() < 0.2:
+                ch += self.range_family()
                 rng.shuffle(ch)
             q = query.Or(ch, boost=rng.choice([1.0, 1.0, 2.0]))
         elif r < 0.56:
@@ -409,6 +438,8 @@ class Gen(object):
             ch = subs(lo, 3)
             if rng.random() < 0.3:
                 ch += [self.termrange() for _ in range(rng.randint(1, 2))]
+            if self.mode != "A1" and rng.random() < 0.15:
+                ch += self.range_family()
             if rng.random() < 0.2:
                 ch.append(query.DisjunctionMax(subs(1, 2), boost=2.0, tiebreak=0.3))
             q = query.DisjunctionMax(ch, boost=rng.choice([1.0, 1.0, 2.0]), tiebreak=rng.choice([0.0, 0.0, 0.3]))
